@@ -39,7 +39,8 @@ def id_bytes(order):
 
 def run(chk, program, tier):
     for r, t in (('WF-LEN13', 'EByte packets are 13 bytes'), ('WF-LEN20', 'USB packets are 20 bytes'), ('WF-LAYOUT', 'writer and reader agree on positions'),
-                 ('WF-CSUM', 'checksum position, coverage, reduction'), ('WF-LINE', 'Yacht Devices line shape'), ('WF-ACT', 'Actisense token layout')):
+                 ('WF-CSUM', 'checksum position, coverage, reduction'), ('WF-LINE', 'Yacht Devices line shape'), ('WF-ACT', 'Actisense token layout'), ('SER-DELIVER', 'serial receive path hands every complete 20-byte window to the decoder'),
+                 ('BUF-PROGRESS', 'serial receive path removes exactly the processed window'), ('SER-CONST', 'serial marker / length constants agree with the encoder')):
         chk.rule(r, t)
     feas = feasible_lengths(program)
     chk.unit('feasible_data_lengths', feas)
@@ -157,6 +158,12 @@ def run(chk, program, tier):
         chk.check(isinstance(data, A.ABytes) and data.items == list(reversed(payload.items)), 'WF-ACT', f"actisense::payload@L={L}", file=DEC, line=0,
                   expected='payload bytes (reversed for the shared decode path)', found=f"{len(data.items) if isinstance(data, A.ABytes) else data!r} bytes")
     chk.floor('lengths', len(feas), 7)
+    # the receive paths that re-frame the byte stream: serial windows (marker, length, every complete window decoded, exact consumption)
+    from .c16 import _Sub
+    r = K.buf_rules(_Sub(chk, {'SER-DELIVER', 'BUF-PROGRESS'}), program)
+    if r:
+        f_, P_, marker_ = r
+        K.ser_const(_Sub(chk, {'SER-CONST'}), program, P_, marker_)
 
 def _reader(chk, fmt, n, r, rev):
     a = r.decode_args
